@@ -38,10 +38,10 @@ ASSUMPTIONS = [
     "same sources; cases whose solo render is not repeatable in one environment are skipped",
 ]
 NSHARDS = {"quick": 16, "thorough": 16}
-BUDGET_S = {"quick": 15, "thorough": 480}
+BUDGET_S = {"quick": 12, "thorough": 420}
 FLOORS = {
     "quick": {"evaluations": 3000, "distinct": 2500,
-              "counters": {"schedules": 3000, "task_outputs_compared": 6000, "cases": 30,
+              "counters": {"schedules": 3000, "task_outputs_compared": 6000, "cases": 15,
                            "gates_released": 12000, "schedules_fresh_env": 150}},
     "thorough": {"evaluations": 60000, "distinct": 50000,
                  "counters": {"schedules": 60000, "task_outputs_compared": 120000, "cases": 200,
